@@ -149,7 +149,7 @@ Theorem c05_wf :
   51 + w_dpad o + w_ipad o < two64 -> w_ipad o < two63 ->
   w_maxcid o + 8 <= max_width ->
   roots_ok roots ->
-  Forall (Forall (fun b : block => cid_bytes_ok (fst b) /\ blen (fst b) + blen (snd b) < 2 ^ 56)) h ->
+  Forall (Forall (fun b : block => blen (fst b) + blen (snd b) < 2 ^ 56)) h ->
   blen (ws_file s) < two63 ->
   (w_v1 o = false -> w_codec o = codec_mh_sorted ->
    N.of_nat (length (group_by r_code (ii_load (records_from (ld_size (blen (enc_header ro 1))) stored) []))) < two31) ->
@@ -171,7 +171,7 @@ Qed.
 
 (* ---- C05_inspect_accepts ------------------------------------------------------------------------------------------ *)
 Lemma stored_rd_ok k o ro h maxs :
-  Forall (Forall (fun b : block => cid_bytes_ok (fst b) /\ blen (fst b) + blen (snd b) < 2 ^ 56)) h ->
+  Forall (Forall (fun b : block => blen (fst b) + blen (snd b) < 2 ^ 56)) h ->
   Forall (Forall (fun b : block => blen (fst b) + blen (snd b) <= maxs)) h ->
   Forall (rd_ok o maxs) (spec_stored k o ro h).
 Proof.
@@ -188,7 +188,7 @@ Theorem c05_inspect_accepts :
   session k o nilroots roots h = Ok (s, outs, ONil) ->
   51 + w_dpad o + w_ipad o < two64 -> w_ipad o < two63 ->
   w_maxcid o + 8 <= max_width ->
-  Forall (Forall (fun b : block => cid_bytes_ok (fst b) /\ blen (fst b) + blen (snd b) < 2 ^ 56)) h ->
+  Forall (Forall (fun b : block => blen (fst b) + blen (snd b) < 2 ^ 56)) h ->
   blen (ws_file s) < two63 ->
   hdrdec pragma_body = Some ([], 2) -> hdrdec (enc_header ro 1) = Some (roots, 1) ->
   blen (enc_header ro 1) <= o_maxh r ->
@@ -215,7 +215,7 @@ Theorem c05_verify_accepts_partial :
   session k o nilroots roots h = Ok (s, outs, ONil) ->
   51 + w_dpad o + w_ipad o < two64 -> w_ipad o < two63 ->
   w_maxcid o + 8 <= max_width ->
-  Forall (Forall (fun b : block => cid_bytes_ok (fst b) /\ blen (fst b) + blen (snd b) < 2 ^ 56)) h ->
+  Forall (Forall (fun b : block => blen (fst b) + blen (snd b) < 2 ^ 56)) h ->
   blen (ws_file s) < two63 ->
   (w_v1 o = false -> w_codec o = codec_mh_sorted ->
    N.of_nat (length (group_by r_code (ii_load (records_from (ld_size (blen (enc_header ro 1))) stored) []))) < two31) ->
